@@ -28,6 +28,14 @@ const modPath = "github.com/enbility/ship-go"
 
 var instrumented = []string{"ship", "ws", "hub", "mdns", "api"}
 
+// probes: functions whose calls an oracle must observe (rule R8). A probe is
+// `simrt.Probe("<pkg>.<Recv>.<Func>", recv, params...)` as first statement.
+var probes = map[string]bool{
+	"api.ServiceDetails.SetConnectionStateDetail": true,
+	"hub.Hub.HandleConnectionClosed":              true,
+	"hub.Hub.HandleShipHandshakeStateUpdate":      true,
+}
+
 type edit struct {
 	pos, end int // byte offsets; pos==end is an insertion
 	text     string
@@ -243,6 +251,20 @@ func (c *fileCtx) walk(n ast.Node, wc *walkCtx) {
 			}
 		}
 		if x.Body != nil {
+			pname := c.pkgName + "." + nwc.recvType + "." + x.Name.Name
+			if probes[pname] && nwc.recvName != "" {
+				args := []string{nwc.recvName}
+				for _, f := range x.Type.Params.List {
+					for _, n := range f.Names {
+						if n.Name != "_" {
+							args = append(args, n.Name)
+						}
+					}
+				}
+				c.needRT = true
+				c.counts["probe"]++
+				c.insert(x.Body.Lbrace+1, " simrt.Probe("+strconv.Quote(pname)+", "+strings.Join(args, ", ")+");")
+			}
 			c.walk(x.Body, nwc)
 		}
 		return
